@@ -43,6 +43,7 @@ type stepOut struct {
 	batches  int
 	sample   map[string]interface{}
 	fault    string
+	opDur    time.Duration // wall time of the operation itself
 }
 
 func (so *stepOut) viol(fp, msg string, detail interface{}) {
@@ -174,7 +175,9 @@ func (e *envT) step(w *worker, pre *wstate, preSnap snap, o opDef, fault string,
 	so = stepOut{counters: map[string]int64{}, fault: fault}
 	restore(preSnap, w.R)
 	w.loadServers(pre, fault)
+	t0 := time.Now()
 	res, enabled := e.apply(w, pre, o)
+	so.opDur = time.Since(t0)
 	so.enabled, so.res = enabled, res
 	if !enabled {
 		return so
@@ -528,6 +531,13 @@ type bfsInfo struct {
 	WallS                float64          `json:"wall_s"`
 	ViolatingTransitions map[string]int64 `json:"violating_transitions_by_fingerprint,omitempty"`
 	Inconclusive         []string         `json:"inconclusive_transitions,omitempty"`
+	Slowest              []string         `json:"slowest_operations,omitempty"`
+	slow                 []slowT
+}
+
+type slowT struct {
+	d time.Duration
+	s string
 }
 
 func pointChoices(p []vx.Point) []int {
@@ -662,6 +672,13 @@ func (e *envT) bfs(p *scenario, deadline time.Time) (*vx.Stats, bfsInfo) {
 				r := e.toResult(p, n.init, path, 0, n.st, &d.main)
 				absorb(&r)
 				info.Transitions++
+				if len(info.slow) < 3 || d.main.opDur > info.slow[len(info.slow)-1].d {
+					info.slow = append(info.slow, slowT{d.main.opDur, fmt.Sprintf("%.1fs exit=%d %s then `%s`", d.main.opDur.Seconds(), d.main.res.Code, p.where(n.init, n.path), p.Ops[oi].Name)})
+					sort.Slice(info.slow, func(i, j int) bool { return info.slow[i].d > info.slow[j].d })
+					if len(info.slow) > 3 {
+						info.slow = info.slow[:3]
+					}
+				}
 				if p.Ops[oi].Push {
 					info.PushTransitions++
 				}
@@ -709,6 +726,9 @@ func (e *envT) bfs(p *scenario, deadline time.Time) (*vx.Stats, bfsInfo) {
 	// new-states-per-level from the cumulative counts
 	for i := len(info.StatesPerLevel) - 1; i > 0; i-- {
 		info.StatesPerLevel[i] -= info.StatesPerLevel[i-1]
+	}
+	for _, x := range info.slow {
+		info.Slowest = append(info.Slowest, x.s)
 	}
 	info.States = len(seen)
 	info.ViolatingTransitions = violTotal
